@@ -32,7 +32,7 @@ ASSUMPTIONS = [
     "Output-interface preservation is asserted for jax and torch only: autograd functions legitimately return plain numpy arrays outside of a differentiation trace.",
     "When an interface returns a lower precision (e.g. torch builds float32 from Python floats) the 32-bit tolerance applies to that comparison.",
 ]
-BUDGET = {"quick": {"examples": 700}, "thorough": {"examples": 200000, "shards": 16}}
+BUDGET = {"quick": {"examples": 250}, "thorough": {"examples": 200000, "shards": 16}}
 IFACES = ("numpy", "autograd", "jax", "torch")
 
 SHAPES = [(3,), (2, 3), (4, 4), (2, 2, 2), (), (1,), (3, 1), (4,)]
@@ -422,9 +422,10 @@ def strategy(tier):
 
 
 def enumerate_cases(tier):
-    """every table entry once with variant 0 in its first dtype (so that no entry is missed by sampling)"""
+    """every table entry with two variants in its first dtype (so that no entry is missed by sampling)"""
     for name in sorted(T):
-        yield {"fn": name, "v": 0, "dt": DT[T[name]["dt"][0]][0], "seed": 1}
+        for v in (1, 6):
+            yield {"fn": name, "v": v, "dt": DT[T[name]["dt"][0]][0], "seed": 1 + v}
 
 
 # ------------------------------------------------------------------------------------------------ machinery
